@@ -8,7 +8,8 @@ META = dict(
         quick="real BacktestingDispatcher on asyncio; 2x2, 3x2 and 2x3 (sources x events) with symbolic microsecond "
               "timestamps (per-source non-decreasing: the premise), a derived source fed by a handler, duplicate "
               "subscriptions, one front-running and one trailing catch-all handler, a solver-chosen handler profile "
-              "(8 patterns of 0..4 suspension points and raising handlers), handlers as coroutine functions / "
+              "(8 patterns of 0..4 suspension points and raising handlers), scheduled jobs next to the events (one scheduled "
+              "by a handler for any time, also one the clock has passed), handlers as coroutine functions / "
               "functools.partial objects / callable instances / bound methods looked up afresh for the duplicate "
               "subscription / plain callables returning a Task (2x2), max_concurrent symbolic in 1..3",
         thorough="adds 3x3 without suspension/raise (max_concurrent 1..4) and 2x4 with profiles (max_concurrent 1..2)"),
@@ -32,6 +33,11 @@ def jobs(tier):
             "returning a Task", "scenario",
             dict(props=["C12"], nsrc=2, nev=2, max_mc=3, handler_kinds=True), **big),
     ]
+    # scheduled jobs next to the events: one scheduled up front, one scheduled by a handler for any time (also a time
+    # the clock has already passed): the clock and the delivery order stay monotone
+    js.append(Job("2x2 events and jobs, one scheduled from a handler for any time", "scenario",
+                  dict(props=["C12"], nsrc=2, nev=2, njobs=1, max_mc=2, derived=False, sniffers=False, dup=False,
+                       susp=False, raising=False, job_from_handler=True), **big))
     if tier == "thorough":
         js += [
             Job("3x3 plain", "scenario", dict(props=["C12"], nsrc=3, nev=3, max_mc=4, susp=False, raising=False),
